@@ -246,6 +246,12 @@ pub fn run_c17(cfg: &Cfg) -> i32 {
             o.unknown_names = r.chance(1, 4);
             exprs.push(expr::generate_expr_with(r.next_u64(), &database, &o));
         }
+        // re-evaluate some expressions later in the sequence: a result (or a failure) of an
+        // earlier evaluation must not be remembered in a way that changes a later one
+        for _ in 0..r.range(0, 3) {
+            let e = exprs[r.below(exprs.len())].clone();
+            exprs.push(e);
+        }
         // faults on queries those expressions will cause
         let mut faults = Faults::default();
         let mut candidates: Vec<String> = Vec::new();
